@@ -116,6 +116,56 @@ def correspond(ctx):
     return c
 
 
+def _input_glue(ctx):
+    """the converters inside the input readers: ONE abstract project (rotation, fertiliser, tillage, irrigation,
+    measurement dates; the automatic-management table with its day+month windows) written in each of the four date
+    formats; the real Input runs on each (harness command inputstate) under fixed dates, automatic sowing, automatic
+    harvest and both: the day numbers it leaves in the rotation arrays (sowing, harvest, latest harvest, both ends of
+    the sowing window, start of the simulation) must be the same whatever the format, and the fixed sowing / harvest
+    day numbers must be those of the calendar dates"""
+    import random, datetime
+    from props import fmtlib as F, c13
+    env = F.setup(ctx, sharpen=False)
+    rnd = random.Random(ctx.seed)
+    P = F.base_project(rnd, crops=(("SM", ""), ("SOY", "000")), years=(1980, 1983))
+    fmts = ["DateDEshort", "DateDElong", "DateENshort", "DateENlong"]
+    variants = ["", "AutoSowingHarvest=1", "AutoHarvest=1", "AutoSowingHarvest=1 AutoHarvest=1"]
+    lines, idx = [], {}
+    for f in fmts:
+        nm = "c12_" + f
+        F.write_project(env, nm, P, datefmt=f)       # compact dates: Input builds the window texts as <4 digits> + <year part of the rotation date>
+        for v in variants:
+            idx[(f, v)] = len(lines)
+            lines.append(F.line_for(nm, P, extra=v))
+    st = c13.input_states(ctx, env, lines)
+    fails, compared = [], 0
+    base = datetime.date(1900, 12, 31)
+    for v in variants:
+        ref = st.get(idx[("DateDElong", v)])
+        for f in fmts:
+            o = st.get(idx[(f, v)])
+            if not o or not o.get("success") or "saat" not in o:
+                fails.append(Fail(key="input-glue:run-failed:%s:%s" % (f, v or "fixed"), what="Input on the %s project (%s): %s" % (f, v or "fixed dates", (o or {}).get("err")),
+                                  replay={"line": lines[idx[(f, v)]], "project": "written by lib/props/fmtlib.write_project"}))
+                continue
+            for k in ("saat", "ernte", "ernte2", "saat1", "saat2", "itag", "beginn"):
+                compared += 1
+                if ref and ref.get("success") and o[k] != ref.get(k):
+                    fails.append(Fail(key="input-glue:%s:%s:%s" % (f, v or "fixed", k),
+                                      what="day numbers left by Input differ between date formats: %s under %s gives %s = %s, DateDElong gives %s" % (f, v or "fixed dates", k, o[k], ref.get(k)),
+                                      replay={"line": lines[idx[(f, v)]], "reference_line": lines[idx[("DateDElong", v)]]}))
+                    break
+            if v == "":
+                # (the first entry is the crop standing at the start: its sowing date is not read)
+                want_s = [(r[1] - base).days for r in P.rot][1:]
+                want_h = [(r[2] - base).days for r in P.rot]
+                if o["saat"][1:len(P.rot)] != want_s or o["ernte"][:len(want_h)] != want_h:
+                    fails.append(Fail(key="input-glue:%s:fixed:calendar" % f, what="fixed sowing / harvest day numbers %s / %s, the calendar dates of the rotation are %s / %s" % (o["saat"][1:len(P.rot)], o["ernte"][:len(want_h)], want_s, want_h),
+                                      replay={"line": lines[idx[(f, v)]]}))
+    ctx.extra["input_glue_arrays_compared_across_date_formats"] = compared
+    return fails
+
+
 def oracle(ctx, search):
     rc, out, err = _run(ctx)
     fails = []
@@ -132,6 +182,10 @@ def oracle(ctx, search):
             ctx.extra["conversions_through_configured_converters_interleaved"] = int(line.split()[1])
     if "conversions_through_configured_converters_interleaved" not in ctx.extra:
         fails.append(Fail(key="configured-converters-not-exercised", what="readConfig did not install the converters for the four formats"))
+    for line in out.split("\n"):
+        if line.startswith("LANGTAG "):
+            ctx.extra["conversions_through_the_configured_prediction_date_converter"] = int(line.split()[1])
+    fails += _input_glue(ctx)
     ctx.extra["oracle_conversions"] = 72684 * (1 + 4 * 2 * 2)
     ctx.extra["exhaustive"] = True
     return fails
